@@ -291,7 +291,8 @@ type c15Case struct {
 	Via   string `json:"via"`   // direct (matcher method) | api (MatchJSON / MatchYAML)
 }
 
-var c15PH = []any{"s", "<Any value>", strings.Repeat("long-placeholder-", 4), 7, nil, map[string]any{"k": 1}, []any{1, "x"}, true, "with \"quotes\" and \n newline"}
+var c15PH = []any{"s", "<Any value>", strings.Repeat("long-placeholder-", 4), 7, nil, map[string]any{"k": 1}, []any{1, "x"}, true, "with \"quotes\" and \n newline",
+	"true", "null", "123", "1.5", "~", "", "- x", "k: v", "# c", "é «x»", "*a", "&a", "[x]", "{x}", "'q'", " lead", "trail ", "a: b: c", "|", ">", "%", "@"}
 
 func c15PHTree(ph any) *vfNode {
 	b, _ := json.Marshal(ph)
@@ -378,7 +379,7 @@ func c15Gen(c *vfCtx, emit func(c15Case)) {
 						if kind == "type" && phi > 0 {
 							continue
 						}
-						if !c.thorough() && phi > 5 && pi%2 == 1 {
+						if !c.thorough() && phi > 5 && (pi+phi)%4 != 0 {
 							continue
 						}
 						for _, via := range []string{"direct", "api"} {
@@ -389,6 +390,15 @@ func c15Gen(c *vfCtx, emit func(c15Case)) {
 								emit(c15Case{Lang: lang, Doc: doc, Path: pi, Path2: -1, Kind: kind, PH: phi, Bytes: by, Via: via})
 							}
 						}
+					}
+				}
+				// ONE matcher given two paths (applied left to right on the evolving document)
+				for pj := range ps {
+					if !c.thorough() && pj != pi && (pi+pj)%2 != 0 {
+						continue
+					}
+					for _, kind := range []string{"anymulti", "typemulti"} {
+						emit(c15Case{Lang: lang, Doc: doc, Path: pi, Path2: pj, Kind: kind, PH: 0, Via: "direct"})
 					}
 				}
 				// two matchers left to right: same path twice, and every other path second (api only)
@@ -441,9 +451,12 @@ func c15Run(c *vfCtx, cs c15Case) {
 	if cs.Via == "api" && cs.Bytes && cs.Lang == "json" {
 		class = "F2-caller-bytes-modified"
 	}
-	if cs.Lang == "yaml" && class == "" && (cs.PH == 5 || cs.PH == 6 || cs.PH == 8) {
+	if cs.Lang == "yaml" && class == "" && cs.Kind != "anymulti" && cs.Kind != "typemulti" && (cs.PH == 5 || cs.PH == 6 || cs.PH == 8) {
 		// the placeholder marshals to a collection or to a multi-line block scalar
 		class = "K11-yaml-multiline-placeholder"
+	}
+	if s, isStr := c15PH[cs.PH].(string); cs.Lang == "yaml" && class == "" && isStr && strings.HasPrefix(s, "- ") && cs.Kind != "anymulti" && cs.Kind != "typemulti" {
+		class = "K12-yaml-placeholder-dash-not-quoted"
 	}
 	var path string
 	if cs.Lang == "json" {
@@ -468,6 +481,10 @@ func c15Run(c *vfCtx, cs c15Case) {
 		}
 	}
 	c.addSet("nontrivial", vfHashJSON(cs))
+	if cs.Kind == "anymulti" || cs.Kind == "typemulti" {
+		c15Multi(c, cs, trees, ps, di, p, path, class)
+		return
+	}
 	target := trees[di].at(p)
 	ph := c15PH[cs.PH]
 	phTree := c15PHTree(ph)
@@ -639,6 +656,7 @@ func c15Run(c *vfCtx, cs c15Case) {
 		ok = got[i].String() == want[i].String()
 	}
 	if !ok {
+		c.outcome(fmt.Sprintf("mismatch:%s placeholder %q", cs.Lang, fmt.Sprint(ph)))
 		c.violation(class, fmt.Sprintf("%s at %s with %v on %q: result %s, expected exactly that node replaced: %s", cs.Kind, path, ph, vfClip(cs.Doc), vfShowTrees(got), vfShowTrees(want)), cs)
 	}
 }
@@ -683,4 +701,96 @@ func vfNumNorm(s string) string {
 		}
 		return "num:" + strconv.FormatFloat(f, 'g', -1, 64)
 	})
+}
+
+// c15Multi: ONE Any/Type matcher given two paths. Reference: paths are
+// applied left to right on the evolving document; a path that does not exist
+// at its turn is an error (ErrOnMissingPath default), the others still apply.
+func c15Multi(c *vfCtx, cs c15Case, trees []*vfNode, ps [][]vfStep, di int, p []vfStep, path, class string) {
+	full2 := ps[cs.Path2]
+	if full2[0].Idx != di {
+		return
+	}
+	p2 := full2[1:]
+	var path2 string
+	if cs.Lang == "json" {
+		var ok bool
+		if path2, ok = vfGJSONPath(p2); !ok {
+			return
+		}
+	} else {
+		path2 = vfYAMLPath(p2)
+		for _, st := range p2 {
+			if !st.Arr && strings.ContainsAny(st.Key, " .[]'\"") {
+				return
+			}
+		}
+	}
+	target := trees[di].at(p)
+	var ph *vfNode
+	var jm match.JSONMatcher
+	var ym match.YAMLMatcher
+	if cs.Kind == "anymulti" {
+		m := match.Any(path, path2).Placeholder("PH")
+		jm, ym = m, m
+		ph = c15PHTree("PH")
+	} else {
+		if cs.Lang != "json" || target.Kind != "scalar" || !strings.HasPrefix(target.Scalar, "num:") {
+			return
+		}
+		jm = match.Type[float64](path, path2)
+		ph = c15PHTree("<Type:float64>")
+	}
+	want := make([]*vfNode, len(trees))
+	copy(want, trees)
+	want[di] = trees[di].replaced(p, ph)
+	// does path2 exist (and, for Type, is it still a number) after the first replacement?
+	exists := true
+	cur := want[di]
+	for _, st := range p2 {
+		if st.Idx >= len(cur.Vals) || (cur.Kind == "obj") == st.Arr || (cur.Kind == "obj" && cur.Keys[st.Idx] != st.Key) {
+			exists = false
+			break
+		}
+		cur = cur.Vals[st.Idx]
+	}
+	secondOK := exists
+	if exists && cs.Kind == "typemulti" && !(cur.Kind == "scalar" && strings.HasPrefix(cur.Scalar, "num:")) {
+		secondOK = false
+	}
+	if secondOK {
+		want[di] = want[di].replaced(p2, ph)
+	}
+	var out []byte
+	var errs []match.MatcherError
+	if cs.Lang == "json" {
+		out, errs = jm.JSON([]byte(cs.Doc))
+	} else {
+		out, errs = ym.YAML([]byte(cs.Doc))
+	}
+	c.count("transitions", 1)
+	if !secondOK {
+		c.outcome("multi:error-expected")
+		if len(errs) == 0 {
+			c.violation(class, fmt.Sprintf("%s(%q, %q) on %q: after the first path is replaced the second no longer exists / has another type, an error must be reported; got none and %q", cs.Kind, path, path2, vfClip(cs.Doc), vfClip(string(out))), cs)
+		}
+		return
+	}
+	c.outcome("multi:replaced")
+	if len(errs) > 0 {
+		c.violation(class, fmt.Sprintf("%s(%q, %q) on %q: unexpected errors %v", cs.Kind, path, path2, vfClip(cs.Doc), errs), cs)
+		return
+	}
+	got, err := c15Tree(cs.Lang, out)
+	if err != nil {
+		c.violation(class, fmt.Sprintf("%s(%q, %q): result is not a valid document: %v", cs.Kind, path, path2, err), cs)
+		return
+	}
+	ok := len(got) == len(want)
+	for i := 0; ok && i < len(got); i++ {
+		ok = got[i].String() == want[i].String()
+	}
+	if !ok {
+		c.violation(class, fmt.Sprintf("%s(%q, %q) on %q: result %s, expected %s", cs.Kind, path, path2, vfClip(cs.Doc), vfShowTrees(got), vfShowTrees(want)), cs)
+	}
 }
